@@ -272,6 +272,9 @@ func runCheck(o checkOpts) *checkResult {
 			if sf.Lemma {
 				w.externFresh[strings.TrimPrefix(sf.Name, "extern:")] = true
 			}
+			if len(sf.PTypes) == 1 && sf.PTypes[0] == "pure" {
+				w.externPure[strings.TrimPrefix(sf.Name, "extern:")] = true
+			}
 			continue
 		}
 		w.specFns[sf.Name] = sf
@@ -620,6 +623,9 @@ func cmdDump(args []string) int {
 			w.externFrames[strings.TrimPrefix(sf.Name, "extern:")] = sf.Reason
 			if sf.Lemma {
 				w.externFresh[strings.TrimPrefix(sf.Name, "extern:")] = true
+			}
+			if len(sf.PTypes) == 1 && sf.PTypes[0] == "pure" {
+				w.externPure[strings.TrimPrefix(sf.Name, "extern:")] = true
 			}
 			continue
 		}
